@@ -137,7 +137,10 @@ class Run:
                 for fc in r.failed_checks[:3]:
                     self.log("  FAIL %s: %s (%s:%s)" % (h.name, fc["description"], fc["file"], fc["line"]))
                 fc = r.failed_checks[0]
-                obligation = "%s::%s::%s" % (crate, h.name, _san(fc["description"])[:60])
+                what = fc["description"]
+                if "placeholder message" in what or not what.strip():
+                    what = "panic in " + (fc.get("function") or "?")
+                obligation = "%s::%s::%s" % (crate, h.name, _san(what)[:60])
                 known = [k for k in self.known if k["property"] == self.pid and k["obligation"] == obligation]
                 if known:
                     self.report(obligation, {}, False)
